@@ -46,6 +46,14 @@ def gen(rng):
     wm["extra"]["proj/README.md"] = {"t": "f", "mode": 0o644, "data": b"info!(\"not source mk_readme\");\n"}
     wm["extra"]["outside/other.rs"] = {"t": "f", "mode": 0o600, "data": b"fn o() { info!(\"outside mk_out\"); }\n"}
     wm["extra"]["tmp/leftover.tmp"] = {"t": "f", "mode": 0o644, "data": b"stale scratch\n"}
+    # what an earlier, crashed run may have left behind: --check must not tidy up either
+    if rng.random() < 0.5:
+        wm["extra"]["proj/Breadlog.lock.tmp"] = {"t": "f", "mode": 0o644, "data": core.lock_text(rng.randrange(1, 99))}
+    if rng.random() < 0.5:
+        wm["extra"]["tmp/breadlog-0b0c7a52-1111-4222-8333-444455556666.tmp"] = {"t": "f", "mode": 0o644, "data": b"fn half() {"}
+    if rng.random() < 0.3:
+        wm["extra"]["proj/src/.main.rs.swp"] = {"t": "f", "mode": 0o600, "data": b"swap"}
+        wm["extra"]["proj/Breadlog.lock.bak"] = {"t": "f", "mode": 0o644, "data": core.lock_text(7)}
     err = rng.random() < 0.15
     if err:
         tags.append("error_config")
